@@ -36,9 +36,8 @@ VARIABLES cfg,      \* [ns |-> number of servers, T |-> timeout sequence, idmax 
           up,       \* Resolver.connections (order of connectionMade)
           pend,     \* Resolver.pending: jobs waiting for a TCP connection
           tq,       \* TCP queries written: [job, conn, id, live]
-          nrep,     \* number of reply datagrams/messages injected so far (payload of an "ok" answer)
           last      \* observation of the last step
-vars == <<cfg, now, hs, jobs, att, timers, rr, conns, up, pend, tq, nrep, last>>
+vars == <<cfg, now, hs, jobs, att, timers, rr, conns, up, pend, tq, last>>
 
 None2 == <<"none", 0>>
 Ids == 1..cfg.idmax
@@ -57,7 +56,7 @@ Obs0(e) == [e |-> e, sent |-> <<>>, closed |-> <<>>, connects |-> <<>>, tcpsent 
 
 InitWith(c) ==
     /\ cfg = c /\ now = 0 /\ hs = <<>> /\ jobs = <<>> /\ att = <<>> /\ timers = <<>> /\ rr = 0
-    /\ conns = <<>> /\ up = <<>> /\ pend = <<>> /\ tq = <<>> /\ nrep = 0 /\ last = Obs0("init")
+    /\ conns = <<>> /\ up = <<>> /\ pend = <<>> /\ tq = <<>> /\ last = Obs0("init")
 
 Due == {i \in DOMAIN timers : timers[i].at <= now}
 Quiet == Due = {}
@@ -100,8 +99,8 @@ QueryTCP(j, B, obs) ==
              /\ UNCHANGED <<hs, rr, conns, pend>>
 
 (* Resolver.filterAnswers on a matching answer *)
-FilterAnswers(j, kind, rc, B, obs) ==
-    CASE kind = "ok"    -> Complete(j, <<"ok", nrep + 1>>, B, obs)
+FilterAnswers(j, kind, rc, v, B, obs) ==
+    CASE kind = "ok"    -> Complete(j, <<"ok", v>>, B, obs)
       [] kind = "err"   -> Complete(j, <<ErrName(rc), 0>>, B, obs)
       [] kind = "trunc" -> QueryTCP(j, B, obs)
 -----------------------------------------------------------------------------
@@ -121,12 +120,11 @@ Lookup(n) ==
               /\ att' = Append(att, [job |-> j, srv |-> 1, id |-> i, k |-> 1, t |-> now, open |-> TRUE])
               /\ timers' = Append(timers, [k |-> "udp", ref |-> a, at |-> now + ToOf(1)])
               /\ last' = [Obs0("lookup") EXCEPT !.sent = << <<a, 1, i, n>> >>]
-    /\ UNCHANGED <<cfg, now, rr, conns, up, pend, tq, nrep>>
+    /\ UNCHANGED <<cfg, now, rr, conns, up, pend, tq>>
 
-(* a datagram with id i arrives at the port of attempt a *)
-Reply(a, i, kind, rc) ==
+(* a datagram with id i (and, if kind = "ok", an answer record with payload v) arrives at the port of attempt a *)
+Reply(a, i, kind, rc, v) ==
     /\ Quiet /\ a \in DOMAIN att
-    /\ nrep' = nrep + 1
     /\ IF ~att[a].open \/ kind = "garbage"          \* closed port: the OS drops it; undecodable: ignored
          THEN /\ last' = Obs0("reply")
               /\ UNCHANGED <<hs, jobs, att, timers, rr, conns, pend, tq>>
@@ -134,7 +132,7 @@ Reply(a, i, kind, rc) ==
          THEN /\ last' = [Obs0("reply") EXCEPT !.unexpected = 1]
               /\ UNCHANGED <<hs, jobs, att, timers, rr, conns, pend, tq>>
          ELSE /\ att' = [att EXCEPT ![a].open = FALSE]
-              /\ FilterAnswers(att[a].job, kind, rc, [tm |-> RemoveTimer("udp", a), tq |-> tq],
+              /\ FilterAnswers(att[a].job, kind, rc, v, [tm |-> RemoveTimer("udp", a), tq |-> tq],
                                [Obs0("reply") EXCEPT !.closed = <<a>>])
     /\ UNCHANGED <<cfg, now, up>>
 
@@ -142,7 +140,7 @@ Advance(d) ==
     /\ Quiet /\ d \in Nat
     /\ now' = now + d
     /\ last' = Obs0("advance")
-    /\ UNCHANGED <<cfg, hs, jobs, att, timers, rr, conns, up, pend, tq, nrep>>
+    /\ UNCHANGED <<cfg, hs, jobs, att, timers, rr, conns, up, pend, tq>>
 
 (* the earliest due delayed call runs *)
 FireUdp(t, tm) ==
@@ -164,7 +162,7 @@ Fire ==
     /\ ~Quiet
     /\ LET t == timers[NextDue]   tm == RemoveAt(timers, NextDue) IN
        IF t.k = "udp" THEN FireUdp(t, tm) ELSE FireTcp(t, tm)
-    /\ UNCHANGED <<cfg, now, up, nrep>>
+    /\ UNCHANGED <<cfg, now, up>>
 
 (* TCP connection attempt c succeeds: every pending query is written to connections[0] *)
 ConnUp(c) ==
@@ -180,7 +178,7 @@ ConnUp(c) ==
          /\ timers' = timers \o [x \in 1..m |-> [k |-> "tcp", ref |-> Len(tq) + x, at |-> now + TcpTimeout]]
          /\ jobs' = [j \in DOMAIN jobs |-> IF j \in Range(pend) THEN [jobs[j] EXCEPT !.stage = "tcp"] ELSE jobs[j]]
          /\ last' = [Obs0("connup") EXCEPT !.tcpsent = [x \in 1..m |-> <<tgt, f[x], jobs[pend[x]].name>>]]
-    /\ UNCHANGED <<cfg, now, hs, att, rr, nrep>>
+    /\ UNCHANGED <<cfg, now, hs, att, rr>>
 
 (* TCP connection attempt c fails: EVERY pending query fails with the reason *)
 ConnFail(c) ==
@@ -188,7 +186,7 @@ ConnFail(c) ==
     /\ conns' = [conns EXCEPT ![c].st = "failed"]
     /\ pend' = <<>>
     /\ CompleteMany(pend, <<"ConnectionRefusedError", 0>>, [tm |-> timers, tq |-> tq], Obs0("connfail"))
-    /\ UNCHANGED <<cfg, now, att, rr, up, nrep>>
+    /\ UNCHANGED <<cfg, now, att, rr, up>>
 
 (* an established TCP connection closes: its live queries are left to their timers *)
 ConnLost(c) ==
@@ -196,32 +194,32 @@ ConnLost(c) ==
     /\ conns' = [conns EXCEPT ![c].st = "lost"]
     /\ up' = SelectSeq(up, LAMBDA x : x # c)
     /\ last' = Obs0("connlost")
-    /\ UNCHANGED <<cfg, now, hs, jobs, att, timers, rr, pend, tq, nrep>>
+    /\ UNCHANGED <<cfg, now, hs, jobs, att, timers, rr, pend, tq>>
 
 (* a message with id i arrives on established connection c *)
-TcpReply(c, i, kind, rc) ==
+TcpReply(c, i, kind, rc, v) ==
     /\ Quiet /\ c \in DOMAIN conns /\ conns[c].st = "up"
-    /\ nrep' = nrep + 1
     /\ LET Q == {q \in DOMAIN tq : tq[q].live /\ tq[q].conn = c /\ tq[q].id = i} IN
        IF Q = {}
          THEN /\ last' = [Obs0("tcpreply") EXCEPT !.unexpected = 1]
               /\ UNCHANGED <<hs, jobs, timers, rr, conns, pend, tq>>
          ELSE LET q == CHOOSE q \in Q : TRUE IN
-              FilterAnswers(tq[q].job, kind, rc, [tm |-> RemoveTimer("tcp", q), tq |-> [tq EXCEPT ![q].live = FALSE]], Obs0("tcpreply"))
+              FilterAnswers(tq[q].job, kind, rc, v, [tm |-> RemoveTimer("tcp", q), tq |-> [tq EXCEPT ![q].live = FALSE]], Obs0("tcpreply"))
     /\ UNCHANGED <<cfg, now, att, up>>
 
 (* end of a recorded history: nothing may still be due *)
-End == Quiet /\ last' = Obs0("end") /\ UNCHANGED <<cfg, now, hs, jobs, att, timers, rr, conns, up, pend, tq, nrep>>
+End == Quiet /\ last' = Obs0("end") /\ UNCHANGED <<cfg, now, hs, jobs, att, timers, rr, conns, up, pend, tq>>
 
 MCNames == 1..2
 Next == \/ \E n \in MCNames : Lookup(n)
-        \/ \E a \in DOMAIN att, i \in Ids, kind \in {"ok", "err", "trunc", "garbage"} : Reply(a, i, kind, IF kind = "err" THEN 3 ELSE 0)
-        \/ \E d \in {1, 2, TcpTimeout} : Advance(d)
+        \/ \E a \in DOMAIN att, i \in Ids, kind \in {"ok", "err", "trunc", "garbage"} :
+              (att[a].open \/ a = 1) /\ (kind = "garbage" => i = att[a].id) /\ Reply(a, i, kind, IF kind = "err" THEN 3 ELSE 0, 7)
+        \/ \E d \in {1} \cup {timers[x].at - now : x \in DOMAIN timers} : Advance(d)     \* one tick, or up to some deadline
         \/ Fire
         \/ \E c \in DOMAIN conns : ConnUp(c)
         \/ \E c \in DOMAIN conns : ConnFail(c)
         \/ \E c \in DOMAIN conns : ConnLost(c)
-        \/ \E c \in DOMAIN conns, i \in Ids, kind \in {"ok", "err", "trunc"} : TcpReply(c, i, kind, IF kind = "err" THEN 2 ELSE 0)
+        \/ \E c \in DOMAIN conns, i \in Ids, kind \in {"ok", "err", "trunc"} : TcpReply(c, i, kind, IF kind = "err" THEN 2 ELSE 0, 8)
 -----------------------------------------------------------------------------
 (* What a user relies on *)
 AttOf(j) == {a \in DOMAIN att : att[a].job = j}
